@@ -169,6 +169,8 @@ template <class T, class M, class V, int N> static void svd_eig (Gen<T>& g, int 
     for (int fp = 0; fp < 2; ++fp)
     {
         M U, Vm; V S;
+        // output parameters arrive holding leftovers of an earlier decomposition: every entry must be written
+        for (int i = 0; i < N; ++i) { S[i] = (T) (7 + i); for (int j = 0; j < N; ++j) { U[i][j] = (T) (0.25 * (i + 1) - j); Vm[i][j] = (T) (i * 3 - j * 0.5 + 1); } }
         jacobiSVD (A, U, S, Vm, std::numeric_limits<T>::epsilon (), fp != 0);
         Rec r ("svd"); r.str ("t", t); r.num ("n", N); r.num ("fp", fp); r.raw ("a", jv (A)); r.raw ("u", jv (U)); r.raw ("s", jv (S)); r.raw ("v", jv (Vm)); r.emit ();
     }
@@ -184,6 +186,7 @@ template <class T, class M, class V, int N> static void svd_eig (Gen<T>& g, int 
     }
     {
         M W = Sy, Vm; V S;
+        for (int i = 0; i < N; ++i) { S[i] = (T) (7 + i); for (int j = 0; j < N; ++j) Vm[i][j] = (T) (i * 3 - j * 0.5 + 1); }
         jacobiEigenSolver (W, S, Vm);
         M W2 = Sy, W3 = Sy; V mn, mx;
         minEigenVector (W2, mn); maxEigenVector (W3, mx);
